@@ -800,8 +800,7 @@ static int ClientHelloExt(ssl_t *ssl,
         /* Currently, the OCSPResponse must be loaded into the key material
             so we check if that exists to determine if we will reply with
             the extension and CERTIFICATE_STATUS handshake message */
-        if (ssl->keys->OCSPResponseBufLen > 0 &&
-            ssl->keys->OCSPResponseBuf != NULL)
+        if (matrixCopyOCSPResponse(ssl) == PS_SUCCESS)
         {
             ssl->extFlags.status_request = 1;
         }
